@@ -138,7 +138,7 @@ def run(repo: Repo, chk: Check) -> None:
             ok = len(res) == 1 and res[0].outcome == 'return'
             got = res[0].value if ok else None
             enc = [e for e in res[0].events if isinstance(e, tuple) and e[0] == 'encoded'] if ok else []
-            encoded = vrepr(enc[0][1]) if enc else None
+            encoded = vrepr(norm_bytes(enc[0][1])) if enc else None
             if not inf:
                 if ncoord == 2:
                     want = "(FQ($x.n), FQ($y.n), FQ(1))"
